@@ -50,8 +50,11 @@ Proof.
 Qed.
 Lemma call_evaluate_norm c : call_evaluate (norm_call c) = call_evaluate c.
 Proof.
-  unfold call_evaluate, norm_call. cbn [c_named c_pos c_lsplat c_msplat].
-  rewrite explicit_named_norm. destruct (explicit_named (c_named c) []); [|reflexivity]. rewrite add_map_norm. reflexivity.
+  unfold call_evaluate, norm_call. cbn [c_named c_pos c_lsplat c_msplat c_asplat].
+  rewrite explicit_named_norm. destruct (explicit_named (c_named c) []) as [n|]; [|reflexivity].
+  destruct (c_asplat c) as [[p kw]|]; cbn [option_map add_arglist arglist_pos fst snd].
+  - rewrite explicit_named_norm. destruct (explicit_named kw n); [|reflexivity]. rewrite add_map_norm. reflexivity.
+  - rewrite add_map_norm. reflexivity.
 Qed.
 
 Lemma eval_default_norm b d : eval_default b (norm_dexpr d) = eval_default b d.
